@@ -180,6 +180,26 @@ def show(v, depth=0):
     return repr(v)
 
 
+STR_METHODS_RETURNING_STR = ('format', 'join', 'upper', 'lower', 'strip', 'lstrip', 'rstrip', 'replace', 'title', 'capitalize', 'ljust', 'rjust',
+                             'center', 'zfill', 'format_map', 'expandtabs', 'casefold', 'swapcase')
+
+
+def never_none(v):
+    """Values that are a str / bytes whatever their operands are: a method of a string literal that returns a string, an f-string,
+    `'literal' % x`, a concatenation with a string literal."""
+    while v[0] == 'res':
+        v = v[3]
+    if v[0] == 'mcall' and is_const(v[1]) and isinstance(v[1][1], (str, bytes)) and v[2] in STR_METHODS_RETURNING_STR:
+        return True
+    if v[0] == 'opaque' and isinstance(v[1], str) and v[1][:2] in ("f'", 'f"'):
+        return True
+    if v[0] == 'bin' and v[1] in ('%', '+') and is_const(v[2]) and isinstance(v[2][1], (str, bytes)):
+        return True
+    if v[0] == 'bin' and v[1] == '+' and is_const(v[3]) and isinstance(v[3][1], (str, bytes)):
+        return True
+    return False
+
+
 class PathState:
     def __init__(self):
         self.env = {}
@@ -210,8 +230,13 @@ class PathState:
 class Walker:
     """Enumerates paths through a statement list."""
 
-    def __init__(self, facts, loop_var=None, class_of=None, max_paths=40000, name_results=False, inline='default', opaque=()):
+    def __init__(self, facts, loop_var=None, class_of=None, max_paths=40000, name_results=False, inline='default', opaque=(), exits_end_paths=False,
+                 guard_effects=False):
         self.facts = facts
+        # `if t: <effect-only calls>` (nothing bound, nothing inlinable, no control flow in either branch) does not fork the path:
+        # its calls become ('guarded', test, polarity, event, node) events of the one path
+        self.guard_effects = guard_effects
+        self.exits_end_paths = exits_end_paths   # `sys.exit(x)` / `parser.error(..)` as statements are `raise SystemExit(..)`
         self.name_results = name_results
         self.inline_mode = inline            # 'default': effectful + small pure module-level helpers ; 'all': every module-level
         self.opaque = set(opaque) | DEFAULT_OPAQUE   # function and local closure except the opaque ones
@@ -248,6 +273,10 @@ class Walker:
                 for a, val in base[3]:
                     if a == node.attr:
                         return val
+            if base[0] == 'closure':
+                got = self.__dict__.get('_fnattrs', {}).get((base, node.attr))
+                if got is not None:
+                    return got
             return v
         if isinstance(node, ast.Call):
             args = []
@@ -447,8 +476,17 @@ class Walker:
             return ('bool', 'and' if is_and else 'or', tuple(out))
         if isinstance(node, (ast.List, ast.Tuple, ast.Set)):
             kind = {ast.List: 'list', ast.Tuple: 'tuple', ast.Set: 'set'}[type(node)]
-            elts = tuple(('star', self.sym(e.value, st)) if isinstance(e, ast.Starred) else self.sym(e, st) for e in node.elts)
-            return (kind, elts)
+            elts = []
+            for e in node.elts:
+                if isinstance(e, ast.Starred):
+                    inner = self.sym(e.value, st)
+                    if inner[0] in ('list', 'tuple') and len(inner) == 2 and not any(x[0] == 'star' for x in inner[1]):
+                        elts.extend(inner[1])          # [*[a, b], c] is [a, b, c]
+                    else:
+                        elts.append(('star', inner))
+                else:
+                    elts.append(self.sym(e, st))
+            return (kind, tuple(elts))
         if isinstance(node, ast.Dict):
             # a dict literal is a fresh mutable object: its creation site is part of its identity
             items = []
@@ -546,7 +584,7 @@ class Walker:
                 # the views of a dict written out in place, in insertion order
                 pick = {'items': lambda k, v: ('tuple', (k, v)), 'keys': lambda k, v: k, 'values': lambda k, v: v}[lit[2]]
                 lit = ('list', tuple(pick(k, v) for k, v in lit[1][1]))
-            if lit[0] in ('list', 'tuple') and len(lit[1]) <= 64 and not any(e[0] == 'star' for e in lit[1]) and not isinstance(node, ast.SetComp):
+            if lit[0] in ('list', 'tuple') and len(lit[1]) <= 64 and not any(e[0] == 'star' for e in lit[1]):
                 # a comprehension over a literal sequence is the sequence it spells out (elements in order)
                 elems = []
                 ok = True
@@ -563,7 +601,14 @@ class Walker:
                         break
                     if all(conds):
                         elems.append(self.sym(node.elt, s2))
-                if ok:
+                if ok and isinstance(node, ast.SetComp):
+                    if all(is_const(e) for e in elems):
+                        uniq = []
+                        for e in elems:
+                            if e not in uniq:
+                                uniq.append(e)
+                        return ('set', tuple(uniq))
+                elif ok:
                     return ('list', tuple(elems))
             inner = st.clone()
             names = [n.id for n in ast.walk(g.target) if isinstance(n, ast.Name)]
@@ -845,10 +890,13 @@ class Walker:
             if not paths or len(paths) > 48:
                 return None
             vals = []
+            # rebinding a local of the evaluated frame (or of a helper inlined into it) is no effect anybody else can see
+            own_locals = {n.id for n in ast.walk(fn) if isinstance(n, ast.Name) and isinstance(n.ctx, ast.Store)} | {a.arg for a in fn.args.args}
+            outer = set(cenv) if cenv is not None else set(st.env)
             for p in paths:
                 if p.end == 'raise' and getattr(self, 'returning_paths_only', False) and p not in live:
                     continue        # asked for the value the call has when it returns (sizes on the non-failing path)
-                if any(e[0] not in self.PURE_EVENTS for e in p.events):
+                if any(e[0] not in self.PURE_EVENTS and not (e[0] == 'aug' and (e[1] in own_locals or e[1] not in outer)) for e in p.events):
                     return None
                 if p in live:
                     vals.append((p, C(None)))
@@ -974,7 +1022,7 @@ class Walker:
                     return r if op in ('==', 'is') else not r
                 if is_const(b):
                     f = st.facts.get(a)
-                    if a[0] in ('new', 'lambda', 'closure', 'list', 'tuple', 'dict', 'set') and b[1] is None:
+                    if (a[0] in ('new', 'lambda', 'closure', 'list', 'tuple', 'dict', 'set') or never_none(a)) and b[1] is None:
                         return op in ('!=', 'is not')
                     if f:
                         if f['eq'] is not None:
@@ -1440,8 +1488,15 @@ class Walker:
             out = []
             for s, e in self.expand_calls(node.value, st, done):
                 v = self.sym(e, s)
+                if self.exits_end_paths:
+                    exc = self.process_exit(v)
+                    if exc is not None:
+                        s.events.append(('raise', exc, node))
+                        self.finish(s, 'raise', node, done)
+                        continue
                 if not (v[0] in ('name',) and isinstance(e, ast.Name) and e.id.startswith('__inl')):
                     s.events.append(self.effect(v, node))
+                self.track_list_mutation(e, v, s)
                 out.append(s)
             return out
         if isinstance(node, ast.Assign):
@@ -1462,6 +1517,63 @@ class Walker:
                 return out
             return self._assign_stmt(node, st, done, node)
         return self._stmt_rest(node, st, done)
+
+    def track_list_mutation(self, e, v, st):
+        """`x.append(v)` / `x.extend([a, b])` on a local bound to a list display written in this frame: every name bound to this
+        very object sees the new elements (the event is recorded as before); any other mutating method leaves the contents unknown."""
+        if not (isinstance(e, ast.Call) and isinstance(e.func, ast.Attribute) and isinstance(e.func.value, ast.Name)):
+            return
+        name = e.func.value.id
+        cur = st.env.get(name)
+        if not (isinstance(cur, tuple) and cur and cur[0] == 'list' and len(cur) == 2) or v[0] != 'mcall' or v[2] not in MUTATORS:
+            return
+        kwargs = v[4] if len(v) > 4 else ()
+        if v[2] == 'append' and len(v[3]) == 1 and not kwargs:
+            new = ('list', tuple(cur[1]) + (v[3][0],))
+        elif v[2] == 'extend' and len(v[3]) == 1 and not kwargs and v[3][0][0] in ('list', 'tuple') and not any(x[0] == 'star' for x in v[3][0][1]):
+            new = ('list', tuple(cur[1]) + tuple(v[3][0][1]))
+        else:
+            new = ('havoc', name, 'mutated@{}'.format(getattr(e, 'lineno', 0)))
+        for n_, val in list(st.env.items()):
+            if val is cur:
+                st.env[n_] = new
+
+    def effect_only(self, body, st):
+        """Is the statement list made of calls made for their effect only (and `pass`): expression statements whose call is not a
+        helper that would be inlined, does not end the process and has no call / lambda / comprehension among its arguments that
+        could hide one?"""
+        for b in body:
+            if isinstance(b, ast.Pass):
+                continue
+            if not (isinstance(b, ast.Expr) and isinstance(b.value, ast.Call)):
+                return False
+            for n in ast.walk(b.value):
+                if isinstance(n, ast.Call) and self.inline_target(n, st) is not None:
+                    return False
+                if isinstance(n, (ast.Lambda, ast.NamedExpr, ast.Await, ast.Yield, ast.YieldFrom)):
+                    return False
+                if isinstance(n, ast.Call) and isinstance(n.func, ast.Name) and n.func.id in st.env:
+                    return False
+            if self.process_exit(self.sym(b.value, st)) is not None:
+                return False
+        return True
+
+    def process_exit(self, v):
+        """The SystemExit a call statement raises when it never returns: sys.exit(x) / exit(x) / quit(x) are `raise SystemExit(x)`;
+        <argparse.ArgumentParser>.error(msg) prints the message and exits with status 2, .exit(status=0, message=None) with
+        `status`.  None for any other call."""
+        if v[0] == 'call' and v[1] in ('sys.exit', 'exit', 'quit') and not v[3] and len(v[2]) <= 1:
+            return ('call', 'SystemExit', tuple(v[2]), ())
+        if v[0] == 'mcall' and v[2] in ('error', 'exit'):
+            recv = v[1]
+            while recv[0] == 'res':
+                recv = recv[3]
+            if recv[0] == 'call' and recv[1] in ('argparse.ArgumentParser', 'ArgumentParser'):
+                if v[2] == 'error':
+                    return ('call', 'SystemExit', (C(2),), ())
+                status = v[3][0] if v[3] else dict(v[4]).get('status', C(0))
+                return ('call', 'SystemExit', (status,), ())
+        return None
 
     def first_match_next(self, node, st):
         """`X = next((k for k, preds in TABLE.items() if all(pred(args) for pred in preds)), default)`: (target name, keys,
@@ -1532,6 +1644,15 @@ class Walker:
         if isinstance(node, ast.If):
             out = []
             for s, e in self.expand_calls(node.test, st, done):
+                if self.guard_effects and self.effect_only(node.body, s) and self.effect_only(node.orelse, s):
+                    test = self.sym(e, s)
+                    if self.decide(test, s) is None and test[0] != 'bool':
+                        for pol, body in ((True, node.body), (False, node.orelse)):
+                            for b in body:
+                                if isinstance(b, ast.Expr) and isinstance(b.value, ast.Call):
+                                    s.events.append(('guarded', test, pol, self.effect(self.sym(b.value, s), b), node))
+                        out.append(s)
+                        continue
                 out.extend(self.fork(e, s, done, node.body, node.orelse))
             return out
         if isinstance(node, ast.Continue):
@@ -1633,7 +1754,13 @@ class Walker:
                     if val == base:
                         st.env[n_] = new
         elif isinstance(tgt, ast.Attribute):
-            st.events.append(('setattr', self.sym(tgt.value, st), tgt.attr, v, node))
+            base_ = self.sym(tgt.value, st)
+            if base_[0] == 'closure' and len(base_) > 3:
+                # an attribute set on a function object that was created in the frame being evaluated (a tag on a closure):
+                # remembered on the value, visible to nobody else
+                self.__dict__.setdefault('_fnattrs', {})[(base_, tgt.attr)] = v
+                return
+            st.events.append(('setattr', base_, tgt.attr, v, node))
         else:
             raise AnalysisError('pathwalk: assignment target {}'.format(unparse(tgt)))
 
@@ -1717,11 +1844,18 @@ class Walker:
                 accs.setdefault(b.target.id, []).append(('extend', b))
         for s in live + [s for s in inner_done if s.end in ('continue', 'break')]:
             broke = s.end in ('continue', 'break')
+            left_by_break = s.end == 'break'
             s.end = None
             s.events.append(('endloop', it, node))
-            # values assigned before the loop and re-assigned inside are unknown afterwards
+            # values assigned before the loop and re-assigned inside are unknown afterwards - except on a path that leaves through
+            # `break`: what it assigned in that last iteration is what the code after the loop sees (everything assigned in earlier
+            # iterations is havoc already, from the loop entry)
             for n in names:
-                if n in st.env and s.env.get(n) != st.env.get(n):
+                if n in st.env and s.env.get(n) != st.env.get(n) and not left_by_break:
+                    s.env[n] = ('havoc', n, tag)
+            for n in list(st.env):
+                # changed in place inside the body (a local list appended to): one walk of the body does not say what it holds
+                if n not in names and s.env.get(n) is not st.env.get(n) and s.env.get(n) != st.env.get(n):
                     s.env[n] = ('havoc', n, tag)
             for an, uses in accs.items():
                 if len(uses) == 1 and not broke:
@@ -1975,6 +2109,9 @@ class Walker:
             if forever and not broke:
                 continue           # `while True:` is only ever left through break / return / raise
             s.end = None
+            for n in list(st.env):
+                if n not in names and s.env.get(n) is not st.env.get(n) and s.env.get(n) != st.env.get(n):
+                    s.env[n] = ('havoc', n, tag)          # changed in place inside the body (a local list appended to)
             if broke and forever:
                 # the facts the exit rests on are the `if ...: break` conditions already on the path
                 s.events.append(('endwhile', C(False), node))
